@@ -87,7 +87,34 @@ class Rewrite(ast.NodeTransformer):
         key = "%s.%s#%d" % (self.modname, qual, n)
         self._c("for")
         node.iter = self._call("__vf_loop_iter__", [ast.Constant(key), node.iter], node.iter)
-        return node
+        local = self.local_stack[-1] if getattr(self, "local_stack", None) else None
+        if local is None or node.orelse or any(isinstance(x, (ast.Break, ast.Yield, ast.YieldFrom, ast.Return)) for x in ast.walk(node)):
+            return node
+        # cut-point probes (no effect unless a cut is registered for the key): state may be replaced at the loop
+        # head, and the end of every iteration (also after `continue`) is observable
+        names = sorted({t.id for t in ast.walk(node) if isinstance(t, ast.Name) and t.id in local})
+        enter = ast.Assign(targets=[ast.Name("__vf_st", ast.Store())],
+                           value=ast.Call(func=ast.Name("__vf_while_enter__", ast.Load()),
+                                          args=[ast.Constant(key), ast.Call(func=ast.Name("locals", ast.Load()), args=[], keywords=[])],
+                                          keywords=[]))
+        rebinding = [ast.If(test=ast.Compare(left=ast.Constant(v), ops=[ast.In()], comparators=[ast.Name("__vf_st", ast.Load())]),
+                            body=[ast.Assign(targets=[ast.Name(v, ast.Store())],
+                                             value=ast.Subscript(value=ast.Name("__vf_st", ast.Load()), slice=ast.Constant(v), ctx=ast.Load()))],
+                            orelse=[])
+                     for v in names]
+        guard = ast.If(test=ast.Compare(left=ast.Name("__vf_st", ast.Load()), ops=[ast.IsNot()], comparators=[ast.Constant(None)]),
+                       body=rebinding or [ast.Pass()], orelse=[])
+        step = ast.Expr(ast.Call(func=ast.Name("__vf_while_step__", ast.Load()),
+                                 args=[ast.Constant(key), ast.Call(func=ast.Name("locals", ast.Load()), args=[], keywords=[])],
+                                 keywords=[]))
+        node.body = [ast.Try(body=node.body, handlers=[], orelse=[], finalbody=[step])]
+        out = [enter, guard, node]
+        for x in out:
+            ast.copy_location(x, node)
+            for y in ast.walk(x):
+                if not hasattr(y, "lineno"):
+                    ast.copy_location(y, node)
+        return out
 
     def visit_While(self, node):
         """cut-point instrumentation (identity unless a cut is registered for the loop's key)"""
@@ -720,6 +747,9 @@ def vf_while_enter(key, loc):
 def vf_while_step(key, loc):
     h = WHILE_CUTS.get(key)
     if h is not None:
+        import sys as _sys
+        if _sys.exc_info()[1] is not None:
+            return          # an exception is propagating through the loop body (the probe sits in a `finally`)
         h.step(loc)
 
 
